@@ -14,6 +14,15 @@ META = {
 }
 
 
+def arg_root_via_parts(body, operand):
+    """parameter number the operand is taken from, also through `let (head, body) = x.into_parts()`"""
+    t = strip_refs(body.origin(operand))
+    for _ in range(4):
+        if t and t[0] == 'field' and is_call(strip_refs(t[1]), name='into_parts'):
+            t = strip_refs(strip_refs(t[1])[2][0])
+    return arg_root(t)
+
+
 def run(R):
     web = R.crate('tonic_web')
     W = spec('wire')['grpc_web']
@@ -191,16 +200,24 @@ def run(R):
         R.check(okw, 'C16.R3', 'request:body-wrapped-with-content-type-encoding', site(cq), 'req.map(|b| GrpcWebCall::request(b, encoding))')
         cp = web.body('service::coerce_response')
         R.saw(cp)
-        cl = [c for c in web.children(cp) if c.kind == 'closure']
+        cl = [c for c in family(web, cp) if c is not cp and c.kind == 'closure']
+        # the wrapper call: in a closure handed to Response::map, or directly on the body taken out of the response's parts
+        wsites = [(c, bb, t) for c in [cp] + cl for bb, t in c.calls(name='response') if 'GrpcWebCall' in (t.get('fn') or '')]
+        enc_params = [i_ + 1 for i_, ty_ in enumerate(web.sig('service::coerce_response')['inputs']) if ty_.split('::')[-1] == 'Encoding']
         okw = False
-        for c in cl:
-            for bb, t in c.calls(name='response'):
-                if 'GrpcWebCall' in (t.get('fn') or ''):
-                    okw = 'encoding' in show(c.origin(t['args'][1]))
+        if len(wsites) == 1 and len(enc_params) == 1:
+            c, bb, t = wsites[0]
+            enc = resolve_env(web, c, c.origin(t['args'][1]), within=[cp])
+            okw = arg_root(strip_refs(enc)) == enc_params[0] or (c is not cp and 'encoding' in show(c.origin(t['args'][1])) and strip_refs(enc)[0] != 'call')
         R.check(okw, 'C16.R3', 'response:body-wrapped-with-encoding', site(cp), 'res.map(|b| GrpcWebCall::response(b, encoding))')
         # .. on every path: whatever the inner service answered (also application/grpc+proto) is translated; no pass-through return
         maps_ = [bb_ for bb_, t_ in cp.calls(name='map') if any(strip_refs(cp.origin(a_))[:1] == ('agg',) and any(t2_.get('name') == 'response' and 'GrpcWebCall' in (t2_.get('fn') or '') for c_ in cl if c_.path == strip_refs(cp.origin(a_))[1].get('def') for bb2_, t2_ in c_.calls()) for a_ in t_['args'])]
+        maps_ += [bb_ for c_, bb_, t_ in wsites if c_ is cp]
         okall = len(maps_) == 1 and all(cp.must_pass(0, rb_, maps_) for rb_ in cp.return_blocks())
+        if okall and wsites and wsites[0][0] is cp:
+            # direct form: the wrapped body is what the returned response carries, and it wraps the inner response's own body
+            rt_ = mirlib.returned_terms(cp)
+            okall = len(rt_) == 1 and term_contains(rt_[0][1], lambda x: is_call(x, name='response') and 'GrpcWebCall' in x[1]) and arg_root_via_parts(cp, wsites[0][2]['args'][0]) == 1
         R.check(okall, 'C16.R3', 'response:translated-on-every-path', site(cp), 'every path of coerce_response wraps the body with GrpcWebCall::response: %r' % okall)
         ins = [(bb, t) for bb, t in cp.calls(pat='HeaderMap', name='insert') if (constdef(cp.origin(t['args'][1])) or '').endswith('CONTENT_TYPE')]
         okc = len(ins) == 1 and term_contains(cp.origin(ins[0][1]['args'][2]), lambda x: is_call(x, name='to_content_type') and 'arg2' in show(x))
@@ -375,7 +392,10 @@ def run(R):
             def ends(v_):
                 v_ = strip_refs(v_)
                 # Ready(None), or Ready(trailers.take().map(..)) which is None exactly when no trailers are stored
-                return (v_[0] == 'agg' and v_[1].get('variant') == 'None') or (is_call(v_, name='map') and is_call(strip_refs(v_[2][0]), name='take') and mentions_field(v_[2][0], 'trailers'))
+                if (v_[0] == 'agg' and v_[1].get('variant') == 'None') or (is_call(v_, name='map') and is_call(strip_refs(v_[2][0]), name='take') and mentions_field(v_[2][0], 'trailers')):
+                    return True
+                # `trailers.take()?` in a helper producing the final item: the residual None
+                return bool(is_call(v_, name='from_residual') and v_[2] and term_contains(v_[2][0], lambda x: is_call(x, name='take')) and mentions_field(v_[2][0], 'trailers'))
             # by feasible path from the leftover test to a return: leftover -> an error; a clean end only without leftover
             n_left = n_end = 0
             ok_t = True
